@@ -1,5 +1,6 @@
-\* C06: the price store and the results of the pure functions are checked; validator statuses, stored validator
-\* prices and submission outcomes are assumed as observed
+\* C06: the price store and the results of the pure functions are checked, and that an accepted submission is stored
+\* as sent with the block's time and height ("vpstamp": freshness is measured from it); validator statuses, the rest of
+\* the stored validator prices and submission outcomes are assumed as observed
 CONSTANTS
   Val = {"v1", "v2", "v3", "v4"}
   Stranger = {"x1"}
@@ -17,7 +18,7 @@ CONSTANTS
   StatusSet = {"avail"}
   ToffSet = {0}
   TraceFile = "trace.ndjson"
-  Checked = {"price"}
+  Checked = {"price", "vpstamp"}
   Owned = {"Calc", "EndBlock"}
 SPECIFICATION TraceSpec
 INVARIANTS TInvPrice
